@@ -95,7 +95,8 @@ NoAuto == [enabled |-> FALSE, depth |-> 2, notagonly |-> TRUE]
 (*   [kind |-> "tag", fmt, tag, at, elems, query, uri]   plain http gun against a 200 target    *)
 (*   [kind |-> "grpc", status]                   grpc gun, ammo tagged "g", target answers status*)
 (*   [kind |-> "grpcbad", what]                  grpc gun: unknown method / ill-typed payload   *)
-(*   [kind |-> "invalid"]                        http gun handed an ammo flagged invalid        *)
+(*   [kind |-> "invalid"]                        http gun handed an ammo flagged invalid (one   *)
+(*                                               sample, __EMPTY__, proto 0; net not fixed)     *)
 (*   [kind |-> "httpscn", name, steps]           http scenario gun; steps = <<[name, out]>>     *)
 (*   [kind |-> "grpcscn", name, steps]           grpc scenario gun; steps = <<[tag, status]>>   *)
 Failed(o) == ~ResponseArrived(o)
@@ -117,6 +118,8 @@ Expected(c) ==
             <<Sample(Tags(c.tag, c.at, c.elems), 200, TRUE)>>
       [] c.kind = "grpc" ->
             <<Sample(<<"g">>, GrpcCode(c.status), TRUE)>>
+      [] c.kind = "invalid" ->                      \* nothing is sent: no status, no tag of its own
+            <<Sample(Tags("", NoAuto, <<>>), 0, TRUE)>>
       [] c.kind = "httpscn" ->
             LET ex == Executed(c.steps)
             IN  [k \in 1..Len(ex) |-> LET s == HttpSample(ex[k].out)
@@ -125,7 +128,7 @@ Expected(c) ==
             [k \in 1..Len(c.steps) |-> Sample(<<c.name \o "." \o c.steps[k].tag>>, GrpcCode(c.steps[k].status), TRUE)]
 
 \* cases for which the statement fixes the NUMBER of samples only
-CountOnly(c) == c.kind \in {"grpcbad", "invalid"}
+CountOnly(c) == c.kind = "grpcbad"
 ExpectedCount(c) == IF CountOnly(c) THEN 1 ELSE Len(Expected(c))
 
 (* Comparison of what the aggregator got (rep: <<[tags, proto, net]>>) with Expected(c).        *)
@@ -133,7 +136,7 @@ ExpectedCount(c) == IF CountOnly(c) THEN 1 ELSE Len(Expected(c))
 TagsMatch(c, got, want) == IF c.kind \in {"httpscn", "grpcscn"} THEN got # <<>> /\ got[1] = want[1] ELSE got = want
 CountOK(c, rep) == Len(rep) = ExpectedCount(c)
 ProtoOK(c, rep) == CountOnly(c) \/ \A k \in DOMAIN rep : k \in DOMAIN Expected(c) => rep[k].proto = Expected(c)[k].proto
-NetOK(c, rep)   == CountOnly(c) \/ \A k \in DOMAIN rep : k \in DOMAIN Expected(c) => (rep[k].net = 0) = Expected(c)[k].netzero
+NetOK(c, rep)   == CountOnly(c) \/ c.kind = "invalid" \/ \A k \in DOMAIN rep : k \in DOMAIN Expected(c) => (rep[k].net = 0) = Expected(c)[k].netzero
 TagOK(c, rep)   == CountOnly(c) \/ \A k \in DOMAIN rep : k \in DOMAIN Expected(c) => TagsMatch(c, rep[k].tags, Expected(c)[k].tags)
 
 -----------------------------------------------------------------------------
